@@ -552,6 +552,9 @@ class RecordContextMatcher:
         # Type matcher
         self.data["Type"] = TypeMatcher(rec)
 
+        # The names a generator variable may never take; whatever else is in self.data later on is a loop variable
+        self.reserved_names = frozenset(self.data)
+
         return self.eval(self.expression.body)
 
     def eval(self, node):
@@ -700,10 +703,12 @@ class RecordContextMatcher:
                 """
                 for gen in node.generators:
                     # The loop variable may not take the place of a name calls are allowed on
-                    if gen.target.id in self.data or gen.target.id in WHITELIST_TREE:
+                    if gen.target.id in self.reserved_names or gen.target.id in WHITELIST_TREE:
                         raise InvalidOperation(
                             "Generator variable '{}' overwrites existing variable!".format(gen.target.id)
                         )
+                # As in Python, the loop variable of an enclosing generator may be shadowed; it is back afterwards
+                shadowed = {gen.target.id: self.data[gen.target.id] for gen in node.generators if gen.target.id in self.data}
                 try:
                     values = recursive_generator(node.generators[::-1])
                     for val in values:
@@ -713,6 +718,7 @@ class RecordContextMatcher:
                     # The loop variables go out of scope, so the same name can be used by a following generator
                     for gen in node.generators:
                         self.data.pop(gen.target.id, None)
+                    self.data.update(shadowed)
 
             return generator_expr()
 
